@@ -30,6 +30,12 @@ var c14 = gen.Register(&gen.Check[caseC14]{
 		} {
 			out = append(out, caseC14{S: SV{Hex: gen.H(v)}})
 		}
+		// exhaustive over limb-pattern products, canonical and Montgomery
+		for _, m := range gen.WordProducts(new(big.Int), 64, func(w, mask uint64) []uint64 { return gen.LimbPatterns }) {
+			if m.Cmp(ref.N) < 0 {
+				out = append(out, caseC14{S: SV{Hex: gen.H(m), Mont: true}}, caseC14{S: SV{Hex: gen.H(m)}})
+			}
+		}
 		return out
 	},
 	Required: []string{"bit255", "mont-domain", "used-object"},
